@@ -146,6 +146,49 @@ Proof.
   - apply IH. intros x Hx. apply H. right. exact Hx.
 Qed.
 
+(* NONE MISSING, end to end (line mode): every point of the dataset that carries an x and a y value and whose
+   coordinates are allowed by the explicit orders belongs to a slice that IS drawn -- the line whose mapped
+   coordinates are the point's coordinates (and by C18_each_slice_once that line is drawn once) *)
+Theorem C18_none_missing : forall s xd v i j,
+  wf_maps (ndims_of s) (processed s) ->
+  s_xdim s = Some xd -> s_ydim s = None -> (xd < ndims_of s)%nat ->
+  length v = ndims_of s ->
+  (forall d, (d < ndims_of s)%nat -> 0 <= nth d v 0 < Z.of_nat (nth d (s_shape s) 0%nat)) ->
+  Forall (fun m => forall o, mp_order m = Some o -> In (map (fun d => nth d v 0) (mp_dims m)) o) (processed s) ->
+  yv s v = Some i -> xv s v = Some j ->
+  exists l, In l (infini_lines s)
+            /\ labels_at (idoms (ctx_of s)) (l_iloc l) = map (proj v) (c_iter (ctx_of s)).
+Proof.
+  intros s xd v i j Hwf Hx Hy Hxd Hl Hb Ho Hyv Hxv.
+  assert (Hnn : notnull_of s v = true) by (unfold notnull_of; rewrite Hyv; reflexivity).
+  destruct (C18_dropna_keeps_data s v Hwf Hl Hb Ho Hnn) as (Hcov & Hin).
+  destruct (final_struct (ndims_of s) (notnull_of s) (s_shape s) (processed s) Hwf) as (Hcd & Hdj).
+  fold (axes_of s) in Hcd, Hdj.
+  pose proof (ctx_covers s xd Hcd Hdj Hx Hy) as Hcc.
+  destruct (c_x_in_axes s xd Hcd Hdj Hx Hxd) as (HxF & Hxdin).
+  set (c := ctx_of s) in *. set (ls := map (proj v) (c_iter c)) in *.
+  assert (Hred : In (map (proj v) (c_red c)) (product (map a_dom (c_red c))))
+    by (apply (covered_product v (axes_of s)); [exact Hcov|apply c_red_in_axes]).
+  assert (Hdata : existsb pt_mask (line_slice s c ls) = true).
+  { apply existsb_exists. unfold line_slice. eexists. split.
+    - apply in_map_iff. exists (proj v (c_x c)). split; [reflexivity|].
+      unfold covered in Hcov. rewrite Forall_forall in Hcov. apply Hcov, HxF.
+    - assert (E : ls ++ [proj v (c_x c)] = map (proj v) (c_iter c ++ [c_x c])) by (subst ls; rewrite map_app; reflexivity).
+      rewrite E. unfold pt_mask. cbn [fst snd]. apply andb_true_iff. split; apply negb_true_iff.
+      + destruct (s_x s) eqn:Esx.
+        * pose proof (group_has s c (xv s) (c_iter c ++ [c_x c]) v j Hcc Hl Hred Hxv) as Hg.
+          destruct (group s c (xv s) (c_iter c ++ [c_x c]) (map (proj v) (c_iter c ++ [c_x c]))); [destruct Hg|reflexivity].
+        * unfold proj. destruct (a_dims (c_x c)); [destruct Hxdin|reflexivity].
+      + pose proof (group_has s c (yv s) (c_iter c ++ [c_x c]) v i Hcc Hl Hred Hyv) as Hg.
+        destruct (group s c (yv s) (c_iter c ++ [c_x c]) (map (proj v) (c_iter c ++ [c_x c]))); [destruct Hg|reflexivity]. }
+  assert (Hf : In ls (filter (fun ls0 => existsb pt_mask (line_slice s c ls0)) (product (idoms c))))
+    by (apply filter_In; split; assumption).
+  unfold infini_lines, lines_of. fold c.
+  rewrite <- (lines_coords (cell * cell) pt_mask (idoms c) (line_slice s c) (s_jam s) (pos_of_prop c P_row)
+                           (pos_of_prop c P_col) (styled_of c) (s_pal s)) in Hf.
+  apply in_map_iff in Hf. destruct Hf as (l & El & Hl'). exists l. split; [exact Hl'|exact El].
+Qed.
+
 (* heat map: every combination of the row / col domains gets exactly one mesh; cell (a, b) of the mesh is
    the (aggregated) z value at (x_b, y_a) *)
 Theorem C18_heatmap_mesh : forall s,
@@ -231,13 +274,29 @@ Proof.
   unfold wf_maps.
   change (processed ex_spec) with [mk_mprop P_color [0]%nat (Some [[2]; [0]]); mk_mprop P_col [1]%nat None].
   change (ndims_of ex_spec) with 3%nat.
-  split; [|split].
+  split; [|split; [|split]].
   - cbn. split; [|split; [constructor|exact I]]. constructor; [|constructor].
     intros d [<-|[]] [E|[]]. discriminate.
   - constructor; [|constructor; [exact I|constructor]]. unfold order_ok. cbn. split.
     + constructor; [intros [E|[]]; discriminate|]. constructor; [intros []|constructor].
     + repeat constructor.
   - constructor; [|constructor; [|constructor]]; intros d [<-|[]]; lia.
+  - repeat constructor; intros [].
+Qed.
+
+(* the hypotheses of C18_none_missing are met by the point (a=2, b=0, t=1) of the example (value id 13) *)
+Example C18_example_none_missing :
+  exists l, In l (infini_lines ex_spec)
+            /\ labels_at (idoms (ctx_of ex_spec)) (l_iloc l) = map (proj [2; 0; 1]) (c_iter (ctx_of ex_spec)).
+Proof.
+  apply (C18_none_missing ex_spec 2%nat [2; 0; 1] 13 1 C18_example_wf); try reflexivity.
+  - cbn. lia.
+  - intros d Hd. change (ndims_of ex_spec) with 3%nat in Hd.
+    destruct d as [|[|[|d]]]; cbn; lia.
+  - change (processed ex_spec) with [mk_mprop P_color [0]%nat (Some [[2]; [0]]); mk_mprop P_col [1]%nat None].
+    constructor; [|constructor; [|constructor]].
+    + intros o E. inversion E; subst. cbn. left. reflexivity.
+    + intros o E. discriminate.
 Qed.
 
 Example C18_example_lines :
@@ -289,6 +348,7 @@ Print Assumptions C18_style_hue_monotone.
 Print Assumptions C18_style_cyclic.
 Print Assumptions C18_domains_nodup.
 Print Assumptions C18_dropna_keeps_data.
+Print Assumptions C18_none_missing.
 Print Assumptions C18_heatmap_mesh.
 Print Assumptions C18_hist_counts.
 Print Assumptions C18_hist_counts_drawn.
